@@ -1,5 +1,6 @@
 import DVP.Lemmas.LoopFault
 import DVP.Properties.C03
+import DVP.Lemmas.LoopEv
 /-!
 # C12 — a failure leaves a consistent, resumable prefix of the trajectory
 
@@ -10,7 +11,9 @@ position, every environment, every span.
 PARTIAL.  Outside the model: the integrator-internal state after a fault and the dense-output
 container (known finding: an *event function* that raises leaves the dense piece of the dropped
 step behind; checked on the implementation by exhaustive crash-point enumeration), event
-evaluation sites (the step is dropped: modelled as an integrator fault).
+evaluation sites are modelled in `DV.LoopEv` (the whole call with events, compared bit for bit on every run):
+`event_call_keeps_what_was_recorded` covers a raising event function, faults inside the nested call of a
+terminal event and callback faults after a stop.
 -/
 namespace DVP.C12
 open DV DV.Loop DVP.Loop
@@ -88,5 +91,17 @@ def demoRun : LoopOut ℚ :=
     (fun k _ h => if k = 2 then { ret := .raise } else { ret := .ok h h }) 20
 
 example : demoRun.sys.ts.reverse = [1/2, 2/5, 3/10] ∧ demoRun.sys.status = 3 ∧ demoRun.sys.cap = 3 := by decide +kernel
+
+/-- **A call with events keeps what was recorded, whatever fails.**  For every behaviour of the integrator, the
+event functions (including one that raises inside `handle_events` — the step is dropped), the callbacks and the
+nested call of a terminal event (faults and interrupts included): the samples present at the start of the call
+stay in place at the head of the trajectory, and the events recorded by earlier calls stay in place at the head
+of the event list. -/
+theorem event_call_keeps_what_was_recorded (cfg : DV.LoopEv.CfgEv ℚ) (s : Sys ℚ) (evs : List (Nat × ℚ)) (nEvents : Nat)
+    (target : ℚ) (orc : DV.LoopEv.OracleEv ℚ) (fuel : Nat) (hne : s.ts ≠ []) :
+    (∃ news, (DV.LoopEv.integrateEv cfg s evs nEvents target orc fuel).sys.ts = news ++ s.ts) ∧
+    (∃ more, (DV.LoopEv.integrateEv cfg s evs nEvents target orc fuel).book.events = evs ++ more) :=
+  ⟨(DVP.LoopEv.integrateEv_outcome cfg s evs nEvents target orc fuel hne).1,
+   (DVP.LoopEv.integrateEv_outcome cfg s evs nEvents target orc fuel hne).2.1⟩
 
 end DVP.C12
